@@ -10,7 +10,7 @@ RULE = ('per case (operator/back-end, base, query batch, budget setting in {tota
         'reference rows (which must equal an un-budgeted run) and the number of observation points; then ONE RUN '
         'PER FAULT POINT: (D) every Deadline read from the k-th on says expired / 0 ms left, k = 1..N_D; '
         '(A) the k-th z3 Optimize.check() returns unknown without running, (B) after running, k = 1..N_Z '
-        '(all points when N <= 48, else a stratified sample). Each faulted run is followed by an un-faulted call '
+        '(all points when N <= 48, else a stratified sample); (H) in parallel evaluation the k-th worker never returns (sleeping worker, virtualised join time-out), k = 1..#queries. Each faulted run is followed by an un-faulted call '
         'on the same manager. Verdict per run: no exception escapes; every row is flagged (inference_timed_out '
         'or preprocessing_timed_out) with result False, or equals the reference. Decisions use logical indices '
         'only. Non-trivial = fault point that changed the outcome (some row flagged); distinct by '
@@ -20,9 +20,9 @@ ASSUMPTIONS = ['a real expiry inside a native solver call is represented by chec
 TRUSTED = ['interposition wrappers on Deadline and z3.Optimize.check (vf/instrument.py)']
 FLOOR = {'quick': 300, 'thorough': 3000}
 BUDGET = {'quick': 110, 'thorough': 1800}
-N = {'quick': 330, 'thorough': 5000}
-REQUIRED = {'quick': {'fault_runs_D': 300, 'fault_runs_A': 150, 'fault_runs_B': 150, 'parallel_fault_runs': 40},
-            'thorough': {'fault_runs_D': 3000, 'fault_runs_A': 1500, 'fault_runs_B': 1500, 'parallel_fault_runs': 400}}
+N = {'quick': 450, 'thorough': 6000}
+REQUIRED = {'quick': {'fault_runs_D': 300, 'fault_runs_A': 150, 'fault_runs_B': 150, 'fault_runs_H': 60, 'parallel_fault_runs': 40},
+            'thorough': {'fault_runs_D': 3000, 'fault_runs_A': 1500, 'fault_runs_B': 1500, 'fault_runs_H': 600, 'parallel_fault_runs': 400}}
 RECYCLE = 40
 BUDGETS = [dict(total_timeout=1000), dict(preprocessing_timeout=1000), dict(inference_timeout=1000),
            dict(total_timeout=1000, inference_timeout=500),
@@ -31,7 +31,8 @@ BUDGETS = [dict(total_timeout=1000), dict(preprocessing_timeout=1000), dict(infe
 PLAN = [('system-w', 'rc2', 'D'), ('lex_inf', 'rc2', 'D'), ('c-inference', 'rc2', 'D'),
         ('system-w', 'z3', 'D'), ('lex_inf', 'z3', 'D'),
         ('system-w', 'z3', 'A'), ('lex_inf', 'z3', 'A'), ('system-w', 'z3', 'B'), ('lex_inf', 'z3', 'B'),
-        ('p-entailment', '', 'D'), ('system-z', '', 'D')]
+        ('p-entailment', '', 'D'), ('system-z', '', 'D'),
+        ('system-w', 'rc2', 'H'), ('lex_inf', 'z3', 'H'), ('c-inference', 'rc2', 'H'), ('system-z', '', 'H')]
 
 
 def cases(tier, seed):
@@ -39,7 +40,7 @@ def cases(tier, seed):
     for i in range(N[tier]):
         s, p, kind = PLAN[i % len(PLAN)]
         out.append({'prop': ID, 'seed': seed, 'idx': i, 'system': s, 'p': p, 'fault': kind,
-                    'budget': BUDGETS[(i // len(PLAN)) % len(BUDGETS)], 'multi': (i % 7 == 3),
+                    'budget': BUDGETS[(i // len(PLAN)) % len(BUDGETS)], 'multi': (i % 7 == 3) or kind == 'H',
                     'big': tier == 'thorough' and i % 25 == 0})
     return out
 
@@ -113,10 +114,13 @@ def run_case(case):
     dl = instrument.DeadlineFaults()
     of = instrument.OptimizeFaults()
     mon = instrument.ProcMon() if multi else None
+    sched = instrument.WorkerSchedule() if kind == 'H' else None
     dl.install()
     of.install()
     if mon:
         mon.install()
+    if sched:
+        sched.install()
     try:
         # ---- calibration: budgets on, no fault
         dl.arm(None)
@@ -145,6 +149,8 @@ def run_case(case):
             nD = nD + 12
             nZ = 12 if (p == 'z3') else 0
         n = nD if kind == 'D' else nZ
+        if kind == 'H':
+            n = len(q1)            # fault point = which worker never returns (virtualised join time-out)
         bump('observation_points_' + kind, cname, n)
         if n == 0:
             bump('cases_without_observation_point', cname)
@@ -155,7 +161,10 @@ def run_case(case):
             ks = sorted(set([1, 2, 3, n - 1, n] + [int(1 + j * step) for j in range(40)]))
         for k in ks:
             dl.arm(k if kind == 'D' else None)
-            of.arm(k if kind != 'D' else None, kind if kind != 'D' else 'A')
+            of.arm(k if kind in ('A', 'B') else None, kind if kind in ('A', 'B') else 'A')
+            if kind == 'H':
+                sched.hang = {k}
+                mon.hung_keys = {k}
             m = manager()
             tag = 'fault=%s,k=%d/%d' % (kind, k, n)
             bump('fault_runs_' + kind)
@@ -172,9 +181,18 @@ def run_case(case):
                 continue
             finally:
                 if mon:
+                    hang_bit = mon.virtual_timeouts > 0
                     left = mon.leftovers(5.0)
                     mon.cleanup()
                     mon.reset()
+                if sched:
+                    sched.hang = set()
+            if kind == 'H':
+                if not hang_bit:
+                    bump('hang_injection_not_reached')
+                    continue
+                if left:
+                    viol('budget:process-left-behind-after-hung-worker', at=tag, leftovers=[list(x) for x in left])
             flagged = False
             bad = False
             for j, (r, t, pt) in enumerate(r1):
@@ -209,6 +227,8 @@ def run_case(case):
                     viol('budget:later-call-unflagged-wrong-answer:fault-%s' % kind, at=tag, row=j, rows=r2,
                          reference=ref2, first_call_rows=r1)
     finally:
+        if sched:
+            sched.uninstall()
         if mon:
             mon.cleanup()
             mon.uninstall()
